@@ -88,6 +88,7 @@ Record obs := mkObs { o_op : oop; o_bytes : list byte; o_st : tstate }.
 Record ostate := mkO {
   os_vt : vt;
   os_prev : tstate;                 (* belief reported after the previous op *)
+  os_model : tstate;                (* belief the (proved) model holds before the op *)
   os_expect : option pt;            (* where the next glyph must land (C02) *)
   os_frame : canvas;                (* last canvas drawn (C03/C04) *)
   os_idx : N;
@@ -160,7 +161,8 @@ Definition fail_if (b : bool) (code : N) (idx : N) (l : list (N * N)) : list (N 
    399 (marker only) bottom-right cell written on an immediate-wrap
    terminal; 901 erase cleared the wrong cells / wrong rendition / moved cursor;
    1101 mode not as last requested or capability not respected;
-   1301 bytes re-sent for what is already in effect; 1701 text altered. *)
+   1301 bytes re-sent for what is already in effect ("in effect" is the belief of
+   the model, which C08 proves true of the terminal); 1701 text altered. *)
 Definition oracle_step (cfg : vtcfg) (beh : behaviour) (adopt : pt -> pt -> pt)
            (check_text : bool) (s : ostate) (o : obs) : ostate :=
   let v := os_vt s in
@@ -231,24 +233,24 @@ Definition oracle_step (cfg : vtcfg) (beh : behaviour) (adopt : pt -> pt -> pt)
       let f :=
         match op with
         | WElem e | WRaw e =>
-            match ts_last (os_prev s) with
+            match ts_last (os_model s) with
             | Some l =>
                 fail_if (attr_eqb (ea l) (ea e) && cs_eqb (gcs (eg l)) (gcs (eg e)) &&
                          negb (bytes_eqb (o_bytes o) (wire (eg e)))) 1301 i f
             | None => f
             end
         | Move p =>
-            fail_if (opt_eqb pt_eqb (ts_cur (os_prev s)) (Some p) &&
+            fail_if (opt_eqb pt_eqb (ts_cur (os_model s)) (Some p) &&
                      negb (match o_bytes o with [] => true | _ => false end)) 1301 i f
         | Show =>
-            fail_if (opt_eqb Bool.eqb (ts_vis (os_prev s)) (Some true) &&
+            fail_if (opt_eqb Bool.eqb (ts_vis (os_model s)) (Some true) &&
                      negb (match o_bytes o with [] => true | _ => false end)) 1301 i f
         | Hide =>
-            fail_if (opt_eqb Bool.eqb (ts_vis (os_prev s)) (Some false) &&
+            fail_if (opt_eqb Bool.eqb (ts_vis (os_model s)) (Some false) &&
                      negb (match o_bytes o with [] => true | _ => false end)) 1301 i f
         | _ => f
         end in
-      mkO v' (o_st o) expect'' (os_frame s) (i + 1) f
+      mkO v' (o_st o) (fst (step beh (os_model s) op)) expect'' (os_frame s) (i + 1) f
   | ODraw c =>
       let same_size := (cw c =? cw (os_frame s)) && (ch c =? ch (os_frame s)) in
       let prev := if same_size then os_frame s else blank_canvas (cw c) (ch c) in
@@ -266,13 +268,13 @@ Definition oracle_step (cfg : vtcfg) (beh : behaviour) (adopt : pt -> pt -> pt)
       let f := fail_if (check_text && sized && negb (trace_is tr (changed_cells prev c))) 401 i f in
       let f := fail_if (same_size && list_eqb element_eqb (grid c) (grid (os_frame s)) &&
                         negb (match o_bytes o with [] => true | _ => false end)) 401 i f in
-      mkO v' (o_st o) None c (i + 1) f
+      mkO v' (o_st o) (fst (run beh (os_model s) (draw_ops (mkScreen (os_frame s)) c))) None c (i + 1) f
   end.
 
 Definition oracle_run (cfg : vtcfg) (beh : behaviour) (adopt : pt -> pt -> pt)
            (check_text : bool) (v0 : vt) (h : list obs) : list (N * N) :=
   rev (os_fail (fold_left (oracle_step cfg beh adopt check_text) h
-                          (mkO v0 init_tstate None (blank_canvas 0 0) 0 []))).
+                          (mkO v0 init_tstate init_tstate None (blank_canvas 0 0) 0 []))).
 
 (* ---- initial terminals the oracle is run from ----------------------------- *)
 Definition junk_rend : rendition :=
